@@ -188,6 +188,7 @@ func randMonSpec(r *simrt.Rand, sch *Schema, owner string, after int, allKinds b
 		mt := &MonTable{Initial: true, Insert: true, Delete: true, Modify: true}
 		if r.Intn(2) == 0 {
 			mt.Columns = append([]string(nil), t.ColNames...)
+			mt.NoCols = r.Intn(2) == 0 // RFC 7047 4.1.5: no "columns" member = all columns
 		} else {
 			for _, c := range t.ColNames {
 				if r.Intn(2) == 0 {
